@@ -1,0 +1,12 @@
+//go:build verif
+// +build verif
+
+// Machine-checked contracts for this package (checked by /verif/govc). Comment-only.
+
+package types
+
+//@ func (ResourceValue).Value
+//@   ensures result == m.Val
+
+//@ property C19 := (ResourceValue).Value#*
+//@ property C12 := (ResourceValue).Value#*
